@@ -59,3 +59,27 @@ package results
 //@        && sameLoc(old(r.findSymbol.Loc), old(varInfo.Loc)) ==> result
 //@   ensures[target-unchanged] r.findSymbol == old(r.findSymbol) && r.fileName == old(r.fileName) && r.referSuffVec == old(r.referSuffVec)
 //@ end
+
+// ---- C08: which files get their require/dofile targets re-resolved after a creation or deletion ----
+// A file whose reference was resolved to a created/deleted path must be re-resolved (a fresh start would).
+// (stated for reference lists without nil entries - the only kind the analysis builds; a nil entry would panic here)
+//@ func (*FileResult).isReferFileContainFiles
+//@   props C08
+//@   ensures[reference-resolved-to-a-changed-file-forces-re-resolution] forall(k, 0, len(f.ReferVec), f.ReferVec[k] != nil)
+//@        && exists(k, 0, len(f.ReferVec), has(needReferFileMap, f.ReferVec[k].ReferValidStr)) ==> result
+//@   loop range:f.ReferVec invariant rangeindex >= -1 && (forall(k, 0, len(f.ReferVec), f.ReferVec[k] != nil) ==>
+//@        forall(k, 0, rangeindex + 1, !has(needReferFileMap, f.ReferVec[k].ReferValidStr)))
+//@ end
+
+// ReanalyseReferInfo: unless skipped (no missing-file error, no reference touching a changed file), every reference is
+// re-resolved and the stale missing-file errors are dropped first.
+//@ func (*FileResult).ReanalyseReferInfo
+//@   props C08
+//@   at call CheckReferFile#0 before assert[re-resolution-runs-on-the-current-file-table] arg2 == allFilesMap && arg3 == fileIndexInfo && arg1 == oneRefer && oneRefer.Valid
+//@   loop range:f.CheckErrVec step [only-missing-file-errors-are-dropped] oneError.ErrType != common.CheckErrorNoFile ==> len(newErrVec) == prev(len(newErrVec)) + 1
+//@ end
+
+//@ func CreateReferenceFileResult
+//@   props C06 C11
+//@   ensures[fresh-empty-result] result != nil && len(result.FindLocVec) == 0 && streq(result.StrFile, strFile) && result.findSymbol == nil
+//@ end
